@@ -110,16 +110,22 @@ int main(int argc, char** argv) {
       MPI_Abort(MPI_COMM_WORLD, 2);
     }
   }
+  fprintf(stderr, "E4-RANK %d: %zu cases in %s\n", comm.rank, cases.size(),
+          argv[1]);
   for (auto& c : cases) {
     if (comm.rank == 0)
       e4::emit_begin(out, c.id);
     comm.barrier();
+    // position of every rank, for the diagnosis of a stalled session
+    fprintf(stderr, "E4-RANK %d: in case %ld\n", comm.rank, c.id);
     if (c.edata == "void")
       run_case<void>(c, comm, out);
     else
       run_case<uint32_t>(c, comm, out);
   }
+  fprintf(stderr, "E4-RANK %d: all cases done, final barrier\n", comm.rank);
   comm.barrier();
+  fprintf(stderr, "E4-RANK %d: leaving main\n", comm.rank);
   if (comm.rank == 0) {
     fprintf(out, "{\"done\":true}\n");
     fclose(out);
